@@ -75,10 +75,14 @@ def run(chk):
         for k in keys:
             if k == 0:
                 v = gint(rng, (nn,), -1, 1)
+                if not v.any():          # an all-zero influence annihilates the network (SVD of a zero matrix)
+                    v[0] = 1
                 red[k] = v
                 full[k] = np.diag(v[north])
             else:
                 r = gint(rng, (nn, nw), -1, 1)
+                if not r.any():
+                    r[0, 0] = 1
                 red[k] = r
                 full[k] = r[north][:, west]
         u = np.eye(2, dtype=complex)
